@@ -15,8 +15,8 @@ RULE = ("BFS over histories of {callback(fresh value), errback(exception instanc
         "raised by the call (AlreadyCalledError or none), canceller call counts, observer invocations with "
         "their inputs, and each Deferred's result.  non-trivial = distinct canonical states after a cancel, a "
         "late (second) result, or while a Deferred was waiting on another")
-BOUNDS = {"quick": "25 canceller configurations with a plain inner Deferred + 10 each with a user-subclass inner and a DeferredList([d]) inner, <=3 Deferreds, <=2 pending callbacks per Deferred, depth 8",
-          "thorough": "25 canceller configurations, <=4 Deferreds, <=2 pending callbacks per Deferred, depth 10"}
+BOUNDS = {"quick": "25 canceller configurations with a plain inner Deferred + 10 each with a user-subclass inner and a DeferredList([d]) inner + 9 with defer.setDebugging(True), <=3 Deferreds, <=2 pending callbacks per Deferred, depth 8",
+          "thorough": "the same 54 configurations, <=4 Deferreds, <=2 pending callbacks per Deferred, depth 10"}
 ASSUMPTIONS = [
     "raising canceller: the statement is silent about the outcome; judged only (i) every cancel() that reaches "
     "an unfired Deferred built with a canceller calls that canceller exactly once (so again on a second cancel() "
@@ -30,7 +30,7 @@ ASSUMPTIONS = [
     "_suppressAlreadyCalled, canceller present) of the real object plus the reference state; tokens are fresh "
     "and verified equal in that state, so they are dropped",
 ]
-MIN = {"quick": {"states": 18000, "nontrivial": 17000, "outcomes": 20, "transitions": 265000},
+MIN = {"quick": {"states": 32000, "nontrivial": 29500, "outcomes": 20, "transitions": 460000},
        "thorough": {"states": 250000, "nontrivial": 240000, "outcomes": 13, "transitions": 3000000}}
 LEVEL_TEXT = ("every history within the bound is executed on real Deferreds and compared after each call with a "
               "reference state machine of the documented one-result / cancellation rules")
@@ -568,14 +568,27 @@ def shards(tier, seed):
     out = [[a, b, "plain"] for a in KINDS for b in KINDS]
     # the shape of the returned inner Deferred matters to forwarding, which depends on the inner canceller
     out += [[a, b, sh] for sh in SHAPES[1:] for a in ("none", "noop") for b in KINDS]
+    # the same rules hold with defer.setDebugging(True) (creation / invocation stacks recorded, extra branches
+    # in callback()/errback()/_startRunCallbacks)
+    out += [[a, b, "plain", "debug"] for a in ("none", "noop", "cb") for b in ("none", "noop", "eb")]
     return out
 
 
 def run_shard(shard, tier, seed):
-    k0, k1, shape = shard
+    from twisted.internet import defer
+    debug = len(shard) > 3 and shard[3] == "debug"
+    defer.setDebugging(debug)
+    try:
+        return _run_shard(shard, tier, seed, debug)
+    finally:
+        defer.setDebugging(False)
+
+
+def _run_shard(shard, tier, seed, debug):
+    k0, k1, shape = shard[:3]
     depth = TIER[tier]["depth"]
     stats = Stats()
-    extra = {"config": [k0, k1, shape], "tier": tier}
+    extra = {"config": [k0, k1, shape] + (["debug"] if debug else []), "tier": tier}
 
     def inv(st, hist):
         for f in st.flags:
@@ -588,22 +601,27 @@ def run_shard(shard, tier, seed):
     def on_state(st, hist):
         nt = st.flags - {"waiter-resumed-ok", "waiter-resumed-fail", "inner-already-fired"}
         if nt:
-            stats.nt((k0, k1, shape, canon(st)))
+            stats.nt((k0, k1, shape, debug, canon(st)))
 
     res = bfs(lambda: St(k0, k1, tier, shape), apply, enabled, canon, inv, depth, on_state=on_state)
     res.violations = []
     stats.add_bfs(res, extra)
-    stats.samples = [{"config": [k0, k1, shape], "history": h} for h in res.samples[:1]]
+    stats.samples = [{"config": extra["config"], "history": h} for h in res.samples[:1]]
     return stats
 
 
 def replay(w):
     k0, k1 = w["config"][:2]
     shape = w["config"][2] if len(w["config"]) > 2 else "plain"
-    st = St(k0, k1, w.get("tier", "quick"), shape)
-    for ev in w["history"]:
-        apply(st, tuple(ev))
-        bad = invariant(st, None)
-        if bad:
-            return bad
-    return []
+    from twisted.internet import defer
+    defer.setDebugging(len(w["config"]) > 3 and w["config"][3] == "debug")
+    try:
+        st = St(k0, k1, w.get("tier", "quick"), shape)
+        for ev in w["history"]:
+            apply(st, tuple(ev))
+            bad = invariant(st, None)
+            if bad:
+                return bad
+        return []
+    finally:
+        defer.setDebugging(False)
